@@ -309,9 +309,8 @@ fn print(r: &Value) -> Vec<u8> {
             o.push(b'u');
         }
         "mouse" => {
-            let code = [0u64, 1, 2, 3, 64, 65][(u(&r["m"]) as usize).min(5)];
             o.extend(b"\x1b[<");
-            o.extend(digits(code + 4 * u(&r["mods"]) + if r["motion"].as_bool().unwrap_or(false) { 32 } else { 0 }));
+            o.extend(digits(u(&r["code"])));
             o.push(b';');
             o.extend(digits(u(&r["col"]) + 1));
             o.push(b';');
@@ -542,15 +541,7 @@ fn c_report(r: &Value) -> String {
         "char" => format!("(RChar {})", u(&r["c"])),
         "kitty" => format!("(RKittyKey {} {})", c_key(&r["k"]), u(&r["mods"])),
         "level" => format!("(RKeyLevel {})", u(&r["n"])),
-        "mouse" => format!(
-            "(RMouse {} {} {} {} {} {})",
-            ["MLeft", "MMiddle", "MRight", "MMove", "MWheelDown", "MWheelUp"][(u(&r["m"]) as usize).min(5)],
-            u(&r["mods"]),
-            b(&r["press"]),
-            b(&r["motion"]),
-            u(&r["row"]),
-            u(&r["col"])
-        ),
+        "mouse" => format!("(RMouse {} {} {} {})", u(&r["code"]), b(&r["press"]), u(&r["row"]), u(&r["col"])),
         "cursor" => format!("(RCursor {} {})", u(&r["row"]), u(&r["col"])),
         "size" => {
             let v = ulist(&r["v"]);
@@ -764,8 +755,8 @@ fn g_report(rng: &mut Rng) -> Value {
             json!({"t": "kitty", "k": k, "mods": mods})
         }
         3 => json!({"t": "level", "n": g_num(rng)}),
-        4 | 5 => json!({"t": "mouse", "m": rng.below(6), "mods": rng.below(8), "press": rng.chance(1, 2), "motion": rng.chance(1, 4),
-                        "row": g_coord(rng), "col": g_coord(rng)}),
+        4 | 5 => json!({"t": "mouse", "code": if rng.chance(3, 4) { *rng.pick(&[0u64, 1, 2, 3, 64, 65]) + 4 * rng.below(8) + 32 * rng.below(2) } else { rng.below(256) },
+                        "press": rng.chance(1, 2), "row": g_coord(rng), "col": g_coord(rng)}),
         6 => json!({"t": "cursor", "row": g_coord(rng), "col": g_coord(rng)}),
         7 => json!({"t": "size", "v": [g_num(rng), g_num(rng), g_num(rng), g_num(rng)]}),
         8 => json!({"t": "decmode", "mode": *rng.pick(&DECMODES), "status": rng.below(5)}),
@@ -881,13 +872,11 @@ pub fn generate(rng: &mut Rng, n: usize, tier: &str) -> Vec<Value> {
             v.push(json!({"reports": [{"t": "decmode", "mode": m, "status": s}], "cuts": []}));
         }
     }
-    // 3. mouse: every button code x modifier x press, at the origin and far away
-    for m in 0..6u64 {
-        for mods in 0..8u64 {
-            for press in [true, false] {
-                v.push(json!({"reports": [{"t": "mouse", "m": m, "mods": mods, "press": press, "motion": mods % 2 == 1, "row": 0, "col": 65534},
-                                            {"t": "mouse", "m": m, "mods": mods, "press": press, "motion": false, "row": 65534, "col": 0}], "cuts": []}));
-            }
+    // 3. mouse: every raw button code 0..255 x press / release, at the origin and far away
+    for code in 0..256u64 {
+        for press in [true, false] {
+            v.push(json!({"reports": [{"t": "mouse", "code": code, "press": press, "row": 0, "col": 65534},
+                                        {"t": "mouse", "code": code, "press": press, "row": 65534, "col": 0}], "cuts": []}));
         }
     }
     // 4. cursor reports near the ambiguity with modified F3 (CSI 1 ; n R)
